@@ -29,12 +29,13 @@ func c18Bases(seed int64, thorough bool) []*e2eCase {
 	// a pause between the files, before the flag
 	mk(true, false, 4, []int64{3000, 300000}, 1<<20)
 	res[len(res)-1].Opts.Compress = 0
+	mk(true, true, 4, []int64{600000}, 10<<20) // pause inside the buffer-size probing phase
 	if thorough {
 		mk(false, true, 3, []int64{2000, 200000}, 1<<20)
 		res[len(res)-1].Opts.Compress = 0
 		mk(false, false, 4, []int64{2000, 30000}, 4096)
 		mk(true, true, 3, []int64{30000}, 4096)
-		mk(true, true, 4, []int64{600000}, 10<<20) // pause inside the buffer-size probing phase
+		mk(false, false, 4, []int64{400000}, 10<<20) // probing phase, download
 	}
 	return res
 }
